@@ -88,43 +88,87 @@ def root_of(cnode):
     return cnode
 
 
+def witness_of(m, own=None):
+    """Witness record of one AstMap.  own: predicate selecting the pattern nodes that belong to the pattern being
+    matched (sub-matches inherit the pairs of the enclosing match, which belong to another pattern tree)."""
+    pairs = [(k, v) for k, v in m.mappings.items() if own is None or own(k)]
+    if not pairs:
+        return {"P": [], "S": [], "m": [], "sym": [], "exps": [], "note": "empty mapping"}
+    proot = root_of(pairs[0][0]).astNode
+    sroot = root_of(pairs[0][1]).astNode
+    P, pidx = encode(proot, True)
+    S, sidx = encode(sroot, False)
+    # wrappers of the pattern root that CAIT trims are not part of the embedding
+    # operator and context nodes are shared singleton objects in CPython's ast, so nodes are identified by
+    # CAIT's own pre-order tree_id (the same numbering as encode()); kinds are cross-checked
+    for k, v in pairs:
+        if P[k.tree_id]["kind"] != type(k.astNode).__name__ or S[v.tree_id]["kind"] != type(v.astNode).__name__:
+            raise RuntimeError("tree numbering of the encoder disagrees with CAIT's tree_id")
+    mapped = {k.tree_id + 1 for k, _ in pairs}
+    for i, n in enumerate(P, 1):
+        if n["ph"] == "none" and n["kind"] in ("Module", "Expr") and i not in mapped and all(
+                P[j - 1]["kind"] in ("Module", "Expr") for j in ancestors(P, i)):
+            n["ph"] = "skip"
+    mm = sorted([k.tree_id + 1, v.tree_id + 1] for k, v in pairs)
+    sym = []
+    for table in (m.symbol_table, m.func_table, m.class_table):     # _f_ in call position is bound in func_table
+        for name, vals in table.items():
+            sym.append({"v": name, "ids": [getattr(x, "id", None) or str(x) for x in vals]})
+    exps = [{"e": name, "s": v.tree_id + 1} for name, v in m.exp_table.items()]
+    return {"P": P, "S": S, "m": mm, "sym": sym, "exps": exps}
+
+
 def witnesses(pattern, program):
     """Run real find_matches; -> (n_matches, [witness records]) ; raises on internal errors."""
-    from pedal.core.report import MAIN_REPORT as R
     from pedal.core.commands import clear_report, contextualize_report
     from pedal.cait.cait_api import find_matches
     clear_report()
     contextualize_report(program)
     matches = find_matches(pattern)
+    return len(matches), [witness_of(m) for m in matches]
+
+
+# sub-patterns matched INSIDE a subtree bound by an enclosing match (CaitNode.find_matches, use_previous=True):
+# they deliberately re-use the placeholder names of the enclosing patterns
+SUBPATTERNS = ["_v2_[__e__]", "_g_(__e__)", "__a__ < __b__", "__e__ == ___", "__e__ + ___", "___ * __e__", "__e__.upper()",
+               "_x_[__a__]", "-__e__", "[__e__, ___]", "_acc_ + __e__", "_x_ + __b__"]
+OUTER_FOR_SUB = ["print(__e__)", "_x_ = __e__", "__a__ + __b__", "_acc_ = _acc_ + __e__", "if __e__:\n    pass",
+                 "for ___ in __e__:\n    pass", "return __e__", "_x_ = __a__ + __b__",
+                 "for _var_ in ___:\n    if __e__ == __str2__:\n        pass"]
+SUB_PROGRAMS = [
+    "for reports in weather_reports:\n    if report['Station']['City'] == 'Chicago':\n        trend.append(reports['Data'])\n",
+    "total = data[key] + data[other]\nprint(items[0] * 2 + items[1])\n",
+    "x = f(a + 1) < g(b)\nif rows[i] == names[j]:\n    pass\n",
+    "def h(v):\n    return v[0] + v[1]\nfor c in text.upper():\n    pass\nacc = acc + -w\n",
+    "y = [a, b]\nprint(s.upper())\nz = y[idx] + x\n",
+]
+
+
+def sub_witnesses(pattern, program):
+    """For every match of `pattern`, match each SUBPATTERN inside every subtree bound to an __expr__ placeholder,
+    inheriting the enclosing match.  -> list of witness records over the sub-pattern's own nodes (bindings include
+    the inherited ones)."""
+    from pedal.core.commands import clear_report, contextualize_report
+    from pedal.cait.cait_api import find_matches
+    clear_report()
+    contextualize_report(program)
     out = []
-    for m in matches:
-        pairs = list(m.mappings.items())
-        if not pairs:
-            out.append({"P": [], "S": [], "m": [], "sym": [], "exps": [], "note": "empty mapping"})
-            continue
-        proot = root_of(pairs[0][0]).astNode
-        sroot = root_of(pairs[0][1]).astNode
-        P, pidx = encode(proot, True)
-        S, sidx = encode(sroot, False)
-        # wrappers of the pattern root that CAIT trims are not part of the embedding
-        # operator and context nodes are shared singleton objects in CPython's ast, so nodes are identified by
-        # CAIT's own pre-order tree_id (the same numbering as encode()); kinds are cross-checked
-        for k, v in pairs:
-            if P[k.tree_id]["kind"] != type(k.astNode).__name__ or S[v.tree_id]["kind"] != type(v.astNode).__name__:
-                raise RuntimeError("tree numbering of the encoder disagrees with CAIT's tree_id")
-        mapped = {k.tree_id + 1 for k, _ in pairs}
-        for i, n in enumerate(P, 1):
-            if n["ph"] == "none" and n["kind"] in ("Module", "Expr") and i not in mapped and all(
-                    P[j - 1]["kind"] in ("Module", "Expr") for j in ancestors(P, i)):
-                n["ph"] = "skip"
-        mm = sorted([k.tree_id + 1, v.tree_id + 1] for k, v in pairs)
-        sym = []
-        for table in (m.symbol_table, m.func_table, m.class_table):     # _f_ in call position is bound in func_table
-            for name, vals in table.items():
-                sym.append({"v": name, "ids": [getattr(x, "id", None) or str(x) for x in vals]})
-        exps = [{"e": name, "s": v.tree_id + 1} for name, v in m.exp_table.items()]
-        out.append({"P": P, "S": S, "m": mm, "sym": sym, "exps": exps})
-    return len(matches), out
+    for outer in find_matches(pattern):
+        outer_keys = set(id(k) for k in outer.mappings)
+        for name in list(outer.exp_table):
+            node = outer[name]            # the documented access path: it also attaches the enclosing match to the node
+            for sp in SUBPATTERNS:
+                try:
+                    subs = node.find_matches(sp, use_previous=True)
+                except Exception as e:
+                    out.append({"error": "%s: %s" % (type(e).__name__, e), "sub": sp, "inside": name})
+                    continue
+                for sm in subs:
+                    w = witness_of(sm, own=lambda k: id(k) not in outer_keys)
+                    w["sub"] = sp
+                    w["inside"] = name
+                    out.append(w)
+    return out
 
 
 def ancestors(T, i):
@@ -179,6 +223,7 @@ def record_chunk(pairs, extra):
             n, ws = witnesses(pattern, program)
             rec["n"] = n
             rec["witnesses"] = ws
+            rec["sub"] = sub_witnesses(pattern, program) if (n > 0 and extra == "sub" and "__" in pattern) else []
         except Exception as e:
             rec["n"] = -1
             rec["witnesses"] = []
